@@ -116,9 +116,9 @@ Record sem_ok (f : file) : Prop := {
 Lemma defined_incl a b ft : (forall x, In x a -> In x b) -> defined a ft -> defined b ft.
 Proof. intros H. induction ft as [s|k v IH|t IH]; cbn [defined]; [apply H|intros [? ?]; split; auto|exact IH]. Qed.
 
-Theorem validate_sound f : validate f = true -> sem_ok f.
+Theorem validate_gen_sound rc f : validate_gen rc f = true -> sem_ok f.
 Proof.
-  unfold validate. rewrite andb_true_iff. intros [Hc H].
+  unfold validate_gen. rewrite andb_true_iff. intros [Hc H].
   destruct (names_ok [] _) as [custom|] eqn:En; [|discriminate].
   repeat (rewrite andb_true_iff in H; destruct H as [H ?]).
   repeat match goal with Hx : _ && _ = true |- _ => rewrite andb_true_iff in Hx; destruct Hx as [? ?] end.
@@ -148,3 +148,6 @@ Proof.
   - intros s fd Hs Hfd. match goal with Hx : forall x, In x (structs f) -> forallb _ (s_fields x) = true |- _ => specialize (Hx s Hs); rewrite forallb_forall in Hx; specialize (Hx fd Hfd); apply type_defined_spec in Hx; eapply defined_incl; [|exact Hx] end. intros x Hx. apply in_app_or in Hx. apply in_or_app. destruct Hx; [left; now apply Hcust|now right].
   - intros m p Hm Hp. match goal with Hx : forall x, In x (messages f) -> forallb _ (m_fields x) = true |- _ => specialize (Hx m Hm); rewrite forallb_forall in Hx; specialize (Hx p Hp); apply type_defined_spec in Hx; eapply defined_incl; [|exact Hx] end. intros x Hx. apply in_app_or in Hx. apply in_or_app. destruct Hx; [left; now apply Hcust|now right].
 Qed.
+
+Theorem validate_sound f : validate f = true -> sem_ok f.
+Proof. apply validate_gen_sound. Qed.
